@@ -23,22 +23,12 @@ namespace C16
 
 open Grammar LuaConv LuaScript
 
-/-- the texts of `Redis.Err` (as `Driver/C01.lean` renders them; only "starts with a code word" and
-    "valid UTF-8" matter here) -/
-def m7ErrText : Redis.Err → Bytes
-  | .wrongType => s2b "WRONGTYPE Operation against a key holding the wrong kind of value"
-  | .notInt => s2b "ERR value is not an integer or out of range"
-  | .overflow => s2b "ERR increment or decrement would overflow"
-  | .invalidExpire => s2b "ERR invalid expire time"
-  | .badFlags => s2b "ERR NX and XX, GT or LT options at the same time are not compatible"
-  | .noSuchKey => s2b "ERR no such key"
-  | .indexRange => s2b "ERR index out of range"
-  | .hashNotInt => s2b "ERR hash value is not an integer"
-  | .tooLong => s2b "ERR string exceeds maximum allowed size (proto-max-bulk-len)"
-  | .syntax => s2b "ERR syntax error"
-  | .notFloat => s2b "ERR value is not a valid float"
-  | .outOfRange => s2b "ERR value is out of range, must be positive"
-  | .notDouble => s2b "ERR One or more scores can't be converted into double"
+/-- the text of a `Redis.Err` as far as this file needs it: the code word (`WRONGTYPE` for a type error, `ERR`
+    otherwise — the full texts are rendered by `Driver/C01.lean`); what matters here is "starts with an
+    upper-case code word" and "valid UTF-8" -/
+def m7ErrText (e : Redis.Err) : Bytes :=
+  if e == .wrongType then s2b "WRONGTYPE Operation against a key holding the wrong kind of value"
+  else s2b "ERR command failed"
 
 def elemResp : Redis.Elem → Resp
   | .bulk b => .bulk (some b)
@@ -70,7 +60,9 @@ theorem good_conv_stable (r : Redis.Reply) (h : Good r = true) : ConvStable (toR
   | simple s =>
     simp only [Good, statusTexts, List.contains_cons, List.contains_nil, Bool.or_false, Bool.or_eq_true, beq_iff_eq] at h
     rcases h with rfl | rfl | rfl | rfl | rfl | rfl | rfl <;> decide
-  | err e => cases e <;> decide
+  | err e =>
+    simp only [toResp, ConvStable, m7ErrText]
+    split <;> decide
   | int i => rfl
   | bulk b => rfl
   | key c => rfl
@@ -89,7 +81,8 @@ theorem good_conv_stable (r : Redis.Reply) (h : Good r = true) : ConvStable (toR
 /-- every error text of the executor model starts with an upper-case code word: a raising
     `redis.call` makes the EVAL answer it verbatim (`raiseReply_code`) -/
 theorem m7_err_has_code (e : Redis.Err) : hasCode (m7ErrText e) = true := by
-  cases e <;> decide
+  unfold m7ErrText
+  split <;> decide
 
 /-- the commands that have an entry in the translator's table, as constructors of the executor
     model's command type (ZRANGE without WITHSCORES, EXPIRE without flags: the shapes the translator
